@@ -2099,3 +2099,63 @@ def mem_show(base, first, second, placement):
     g = {"two_attributes": f"Root(a={x}, b={y})", "list": f"Root(l=[{x}, {y}])", "tuple": f"Root(tp=({x}, {y}))", "dict": f"Root(d={{'k0': {x}, 'k1': {y}}})",
          "attribute_and_nested_object": f"Root(a={x}, c=NodeA(t={y}, v=-1))"}[placement]
     return f"{w}; {g}"
+
+
+# ============================================================================= round 7 (C14): instance relations that are not nominal inheritance
+# Types for skip-by-type lists whose `isinstance` relation does not follow the MRO: an ABC with register()ed virtual
+# subclasses, an ABC with __subclasshook__, a runtime-checkable Protocol, a metaclass with __instancecheck__. Module
+# level, so that load() can import them by the qualified name recorded in the file.
+import abc as _abc
+import typing as _typing
+
+
+class RegisteredKind(_abc.ABC):
+    """Virtual subclasses through register(): a builtin, an extension type and an AutoSerialize test class."""
+
+
+RegisteredKind.register(str)
+RegisteredKind.register(np.ndarray)
+RegisteredKind.register(Inner)
+
+
+class RegisteredTensorKind(_abc.ABC):
+    """register(torch.Tensor): nn.Parameter and registered buffers are instances through a virtual base."""
+
+
+RegisteredTensorKind.register(torch.Tensor)
+
+
+class HasShapeHook(_abc.ABC):
+    """__subclasshook__: every class that defines `shape` somewhere in its MRO (ndarray, NumPy scalars, tensors)."""
+
+    @classmethod
+    def __subclasshook__(cls, C):
+        if cls is HasShapeHook:
+            return True if any("shape" in vars(B) for B in C.__mro__) else NotImplemented
+        return NotImplemented
+
+
+@_typing.runtime_checkable
+class HasItemsProtocol(_typing.Protocol):
+    """Structural: anything with items() and keys() (dict and its subclasses)."""
+
+    def items(self): ...
+
+    def keys(self): ...
+
+
+class _InstanceCheckByClassName(type):
+    def __instancecheck__(cls, v):
+        return type(v).__name__ in ("float", "float32", "complex128", "Parameter", "PosixPath", "Mid")
+
+
+class NamedInstanceCheck(metaclass=_InstanceCheckByClassName):
+    """__instancecheck__ on the metaclass: no class is a subclass of it, yet values are instances."""
+
+
+class PlainLeafNode(AutoSerialize):
+    """Innermost node of C14's instance-relation graph (nothing set by __new__); a virtual subclass of RegisteredKind."""
+
+
+RegisteredKind.register(PlainLeafNode)
+CLASSES["PlainLeafNode"] = PlainLeafNode
